@@ -876,7 +876,7 @@ def extra_phase(tier, seed, ws, agg, run_spec_on):
     return out
 
 
-TIERS = {'quick': 20000, 'thorough': 500000}
+TIERS = {'quick': 16000, 'thorough': 500000}
 WALL_CAP = {'quick': 240, 'thorough': 3300}
 DET_SAMPLE = {'quick': 24, 'thorough': 100}
 
